@@ -118,6 +118,12 @@ fn one<T: Flt>(acc: &mut Acc, cfg: &Cfg, pre: Option<f64>, rejected_first: bool,
     let x: Vec<f64> = (0..n_in).map(|n| (-0.5 * ((n as f64 - n0 as f64) / sigma).powi(2)).exp()).collect();
     let s = resample_all_pre2::<T>(cfg, &x, pre, rejected_first)?;
     acc.evals += 1;
+    if let Some((call, value)) = s.delay_changed {
+        acc.outcomes.insert(format!("{}:delay-changes", cfg.kind.name()));
+        if acc.found.iter().filter(|f| f["sig"] == "delay-changes-mid-stream").count() < 4 {
+            acc.found.push(json!({"prop": "C14", "sig": "delay-changes-mid-stream", "detail": format!("output_delay() was {} before the stream and is {} after call {} although the ratio never changed", s.delay, value, call), "cfg": cfg.to_json(), "history": "", "point": format!("T={} pulse at input frame {}", T::NAME, n0)}));
+        }
+    }
     let (mut m0, mut m1) = (0.0f64, 0.0f64);
     for (k, y) in s.out.iter().enumerate() {
         m0 += y * y;
@@ -258,7 +264,7 @@ impl Check for C14 {
         crate::frame::replay_by_item(self, replay)
     }
     fn rule(&self, _tier: Tier) -> String {
-        "full product of 7 types x ratio / rate pair x filter length / degree / requested FFT chunk (x sub_chunks) x chunk size x 6 event positions (incl. chunk boundary +-1): |centroid(out) - (n*ratio + output_delay())| <= max(1,ratio)+1; plus the README recipe executed literally on one clip per configuration; asynchronous types also with the ratio changed (no ramp) on the fresh resampler, 6 (ratio, max, relative) triples; representatives of all seven types also after one rejected call (short input channel) on the fresh resampler. Non-trivial = pulse found in the output".into()
+        "full product of 7 types x ratio / rate pair x filter length / degree / requested FFT chunk (x sub_chunks) x chunk size x 6 event positions (incl. chunk boundary +-1): |centroid(out) - (n*ratio + output_delay())| <= max(1,ratio)+1, output_delay() read again after every call of the stream; plus the README recipe executed literally on one clip per configuration; asynchronous types also with the ratio changed (no ramp) on the fresh resampler, 6 (ratio, max, relative) triples; representatives of all seven types also after one rejected call (short input channel) on the fresh resampler. Non-trivial = pulse found in the output".into()
     }
     fn assumptions(&self) -> Vec<String> {
         vec!["the event is a Gaussian pulse wide enough to be band-limited for every configuration, so its energy centroid is preserved by an ideal resampler".into()]
